@@ -226,16 +226,13 @@ def main():
         discharged = 0
     # thorough tier: the independent re-checker replays the compiled modules of this property
     if args.tier == "thorough" and props_built and thm_names:
-        mods = []
-        for sub in ("Model", "Spec", "Lemmas"):
-            d = os.path.join(core.LEAN, "Anytree", sub)
-            mods += ["Anytree.%s.%s" % (sub, f[:-5]) for f in sorted(os.listdir(d)) if f.endswith(".lean")]
-        mods += getattr(mod, "MODULES", ["Anytree.Props.%s" % pid])
-        rc, out = core.sh(["lake", "env", "leanchecker"] + mods, cwd=core.LEAN, timeout=3000)
+        mods = core.import_closure(getattr(mod, "MODULES", ["Anytree.Props.%s" % pid]))
+        with core.BuildLock():      # no rebuild (for another --repo) may swap the object files under the checker
+            rc, out = core.sh(["lake", "env", "leanchecker"] + mods, cwd=core.LEAN, timeout=3000)
         if rc != 0:
             problems.append("leanchecker rejects the compiled modules: %s" % out[-500:])
         else:
-            notes.append("leanchecker replayed %d modules: ok" % len(mods))
+            notes.append("leanchecker replayed %d modules (import closure of the property's theorem files): ok" % len(mods))
 
     # 4. cases
     known = [k for k in load_known() if k["property"] == pid]
